@@ -259,8 +259,11 @@ def check(case):
     out.applies('haze-range-moved')
     try:
         mv = case.get('range_move', [30.0, 10.0])
-        m['atm_max_pressure'] = float(m['atm_max_pressure']) * mv[0]
-        m['atm_min_pressure'] = float(m['atm_min_pressure']) * mv[1]
+        new_max, new_min = float(m['atm_max_pressure']) * mv[0], float(m['atm_min_pressure']) * mv[1]
+        if new_max < 3.0 * new_min:
+            raise CutError('moved range would collapse')        # a thin atmosphere moved onto itself: no legal grid, no verdict
+        m['atm_max_pressure'] = new_max
+        m['atm_min_pressure'] = new_min
         with np.errstate(all='ignore'):
             cut(out, 'model@range-moved', m.model)
         judge_haze(np.asarray(contrib.sigma_xsec, dtype=float), np.array(m.pressureProfile, dtype=float, copy=True),
